@@ -122,10 +122,13 @@ theorem benhamLoop_scale (k : Rat) (hk : 0 < k) (votes : Profile) : ∀ (f : Nat
         · rfl
         · rw [subsetProfile_scale, ih]
 
-/-- **Benham** -/
-theorem benham_scale (k : Rat) (hk : 0 < k) (votes : Profile) : benham (scaleR k votes) = benham votes := by
-  unfold benham
+theorem benhamCore_scale (k : Rat) (hk : 0 < k) (votes : Profile) : benhamCore (scaleR k votes) = benhamCore votes := by
+  unfold benhamCore
   rw [allRankedCandidatesR_scale, benhamLoop_scale k hk]
+
+/-- **Benham** (with the lone-candidate shortcut of fix 1230cf6: the test reads no weight) -/
+theorem benham_scale (k : Rat) (hk : 0 < k) (votes : Profile) : benham (scaleR k votes) = benham votes := by
+  simp only [benham, allRankedCandidatesR_scale, benhamCore_scale k hk]
 
 theorem tidemanTier_scale (k : Rat) (hk : 0 < k) (smith : Bool) : ∀ (f : Nat) (rv : Profile),
     tidemanTier smith f (scaleR k rv) = tidemanTier smith f rv := by
@@ -137,10 +140,35 @@ theorem tidemanTier_scale (k : Rat) (hk : 0 < k) (smith : Bool) : ∀ (f : Nat) 
     simp only [tidemanTier, scaleR_isEmpty, rankedToCondorcetR_scale, smithSchwartz_scale k hk, subsetProfile_scale,
       eliminateOne_scale k hk, ih]
 
-/-- **Tideman's alternative method** (Smith and Schwartz variants) -/
+theorem tidemanRunTier_scale (k : Rat) (hk : 0 < k) (smith : Bool) (f : Nat) (rv : Profile) :
+    tidemanRunTier smith f (scaleR k rv) = tidemanRunTier smith f rv := by
+  simp only [tidemanRunTier, allRankedCandidatesR_scale, tidemanTier_scale k hk]
+
+theorem tidemanCore_scale (k : Rat) (hk : 0 < k) (smith : Bool) (votes : Profile) :
+    tidemanCore smith (scaleR k votes) = tidemanCore smith votes := by
+  unfold tidemanCore
+  rw [allRankedCandidatesR_scale, tidemanTier_scale k hk]
+
+/-- **Tideman's alternative method**, one seat (Smith and Schwartz variants; lone-candidate shortcut of fix bddde61) -/
 theorem tideman_scale (k : Rat) (hk : 0 < k) (smith : Bool) (votes : Profile) :
     tideman smith (scaleR k votes) = tideman smith votes := by
   unfold tideman
-  rw [allRankedCandidatesR_scale, tidemanTier_scale k hk]
+  rw [allRankedCandidatesR_scale, tidemanRunTier_scale k hk]
+
+theorem tidemanLoop_scale (k : Rat) (hk : 0 < k) (smith : Bool) (tf : Nat) :
+    ∀ (f : Nat) (tier : Profile) (eligible : List Cand) (acc : List Slot) (n : Nat),
+      tidemanLoop smith tf f (scaleR k tier) eligible acc n = tidemanLoop smith tf f tier eligible acc n := by
+  intro f
+  induction f with
+  | zero => intro tier eligible acc n; rfl
+  | succ f ih =>
+    intro tier eligible acc n
+    simp only [tidemanLoop, tidemanRunTier_scale k hk, subsetProfile_scale, ih]
+
+/-- **Tideman's alternative method, any number of seats** (one tier per seat, earlier winners removed from the ballots) -/
+theorem tidemanN_scale (k : Rat) (hk : 0 < k) (smith : Bool) (votes : Profile) (n : Nat) :
+    tidemanN smith (scaleR k votes) n = tidemanN smith votes n := by
+  unfold tidemanN
+  simp only [allRankedCandidatesR_scale, tidemanLoop_scale k hk]
 
 end VL.Scale
